@@ -21,6 +21,8 @@ for sub in sorted(os.listdir(out)):
     run = m.group(1) if m else "TestDemo"
     notes = open(os.path.join(d, "notes.md")).read() if os.path.exists(os.path.join(d, "notes.md")) else ""
     pm = re.search(r"((?:internal|pkg|cmd)/[\w/.-]*?)/?" + re.escape(demo), notes) or re.search(r"`((?:internal|pkg|cmd)/[\w/.-]+_test\.go)`", notes)
+    if not pm:
+        pm = re.search(re.escape(demo) + r"`?\s+(?:in|into|under)\s+`((?:internal|pkg|cmd)/[\w/.-]+?)/?`", notes)
     if pm:
         target = pm.group(1)
         if not target.endswith(".go"):
